@@ -124,7 +124,37 @@ def _one(case):
     return res
 
 
+def _polytope_sweep(arg):
+    """Every N up to the level bound through the polytope getter the grid classes use: exactly N rows, a bit-exact prefix of
+    the complete level (no Voronoi construction, so all N are affordable in the quick tier)."""
+    kind, levels = arg
+    from molgri.space.polytopes import Cube4DPolytope, IcosahedronPolytope, Cube3DPolytope
+    res = Result()
+    with quiet():
+        p = {"cube4D": Cube4DPolytope, "ico": IcosahedronPolytope, "cube3D": Cube3DPolytope}[kind]()
+        for _ in range(levels):
+            p.divide_edges()
+        full = np.asarray(p.get_half_of_hypercube(projection=True) if kind == "cube4D" else p.get_nodes(projection=True))
+    step = 1 if kind == "cube4D" else 7
+    for N in list(range(1, len(full) + 1, step)) + [len(full)]:
+        case = {"polytope": kind, "levels": levels, "N": N}
+        try:
+            with quiet():
+                part = np.asarray(p.get_half_of_hypercube(N=N, projection=True) if kind == "cube4D" else p.get_nodes(N=N, projection=True))
+            bad = None if (part.shape == (N, full.shape[1]) and np.array_equal(part, full[:N])) else \
+                f"{kind} polytope (level {levels}): the first {N} points are not {N} rows equal to the prefix of the complete level (shape {part.shape})"
+        except Exception as e:
+            bad = f"{kind} polytope (level {levels}): requesting the first {N} of {len(full)} points raised {type(e).__name__}: {e}"
+        res.case(sample=case if N in (1, len(full)) else None, nontrivial=N >= 2, key=case, classes=["polytope_prefix_sweep", f"alg={kind}"])
+        if bad:
+            res.violation(case, bad)
+    return res
+
+
 def replay(case):
+    if "polytope" in case:
+        r = _polytope_sweep((case["polytope"], case["levels"]))
+        return [v["message"] for v in r.violations if v["case"]["N"] == case["N"]]
     return judge(case)
 
 
@@ -157,10 +187,12 @@ def run(tier):
         cases.append({"alg": alg, "N": 1, "by_name": name, "role": role})
     # expensive first so the pool stays busy
     cases.sort(key=lambda c: -(c["N"] ** (2 if c["alg"] in ALGS4 + ("fulldiv",) else 1)))
-    res = merge_results(pmap(_one, cases))
+    results = pmap(_one, cases)
+    results += pmap(_polytope_sweep, [("cube4D", 2), ("ico", 3), ("cube3D", 3)])
+    res = merge_results(results)
     res.violations.sort(key=lambda v: v["case"]["N"])
     rule = ("enumeration of (algorithm, N): " + ("every N in 1..50 (3D) / 1..42 (4D), level boundaries +-1, seeded larger N up to 700 / 110, N=272 for both rotation algorithms, fulldiv 8 and 40"
             if tier == "quick" else "every N in 1..2563 (ico), 1..1539 (cube3D), 1..800 (randomS), 1..272 (cube4D, randomQ), fulldiv 8/40/272")
-            + ", the zero grids and every N=1 name. Non-trivial = N>=2; distinct = distinct (algorithm, N).")
+            + ", the zero grids and every N=1 name; plus, without building cells, every N in 1..272 through the hypercube half-selection (level 2) and every 7th N through the level-3 icosahedron / cube node getters. Non-trivial = N>=2; distinct = distinct (algorithm, N).")
     return res, rule, {"exhaustive": tier == "thorough",
                        "assumptions": ["fulldiv 2080 is beyond the exploration bound (construction > 1 h)"]}
